@@ -6,7 +6,7 @@ from pvlib import hx
 LEVEL = "proof"
 RULE = ("real bin/cache with scripted children (identity / upper / prefix / rev transforms; eager, block and read-all buffering) that "
         "log their stdin: every duplicate pattern of length <= 6 (quick) / 7 over 3 keys, seeded inputs with > 4096 distinct lines and "
-        "> 64 KiB, LF / CRLF line ends and unterminated last lines, key specs -k/-t, and inputs whose producer stalls at and around the queue-page multiples after the 4096-line flush; stdout must be the child's answer to the first line with the same key, the child must have "
+        "> 64 KiB, LF / CRLF line ends and unterminated last lines, key specs -k/-t incl. keys of several separate ranges over lines with empty and missing fields, and inputs whose producer stalls at and around the queue-page multiples after the 4096-line flush; stdout must be the child's answer to the first line with the same key, the child must have "
         "received exactly the first-occurrence lines in order, exit status = the child's; the Lean model (PV.Cache.run) must agree; "
         "the PV_TRACE log must be accepted by the wrapper automaton; non-trivial = distinct (key spec, child, input)")
 ASSUMPTIONS = ["child answers are compared as C02 records (a trailing CR in an answer is stripped by the reader on every path)",
@@ -57,6 +57,19 @@ def run(ctx):
     stalls = sorted(set([1023 * k + d for k in range(1, 7) for d in (-1, 0, 1)] + [4095, 4096, 4097] + [rng.randrange(1, len(paced)) for _ in range(4)]))
     cases.append(([], lambda l: l, paced, stalls))
     cases.append((["-k", "2", "-t", " "], lambda l: (l.split(b" ") + [b""])[1], paced, stalls[1::2]))
+    # keys made of several separate ranges over lines with empty and missing fields: the key is the TUPLE of selected pieces, so an
+    # empty field in one position and the same text in another are different keys (pieces as RangeFields hands them over, C10)
+    for _ in range(24 if ctx.tier == "quick" else 240):
+        spec, dl = rng.choice([("1,3", "\t"), ("1,3,5", ","), ("1-2,4", "\t"), ("2,4-", " "), ("1,3-", "\t"), ("2-3,5", ","), ("1,2", "\t"), ("3,1", "\t")])
+        ranges = sorted((int(a) - 1, (int(b) if b else 10 ** 9) if sep else int(a)) for a, sep, b in (x.partition("-") for x in spec.split(",")))
+        d = dl.encode()
+
+        def keyf(l, ranges=ranges, d=d):
+            f = l.split(d)
+            return tuple(d.join(f[b:e]) for b, e in ranges if b < len(f))
+        atoms = [b"", b"", b"a", b"b", b"ab"]
+        lines = [d.join(rng.choice(atoms) for _ in range(rng.randrange(1, 7))) for _ in range(rng.randrange(8, 60))]
+        cases.append((["-k", spec] + (["-t", dl] if dl != "\t" else []), keyf, lines))
     for i, case in enumerate(cases):
         args, keyf, lines = case[:3]
         stall_lines = case[3] if len(case) > 3 else None
